@@ -1,172 +1,1009 @@
-"""C20 - process-grid selection (narrow claim: the structural clauses)."""
+"""C20 - process-grid selection (narrow claim: the structural clauses).
+
+Every rule is three-valued.  HOLDS: the statements carrying the argument are found (up to the names of locals, tuple
+assignments, hoisted loop invariants, helper functions written back in place, keyword arguments, `<`/`<=` with a
+shifted integer bound).  VIOLATED: a recognised wrong form (wrong dimension under a bound, failure test that is not the
+negated scan bound, process count of another communicator, extents replaced one without the other, a memoised table
+changed in place, an iteration that changes nothing).  Anything else is UNDECIDED.
+"""
 from __future__ import annotations
 
 import ast
+import copy
 
-from ..core import src, AnalysisError, parent, same_expr, contains
+from ..core import src, AnalysisError, parent, same_expr, increment_of
 from .. import units as U
 from .. import ispace as I
+from .. import lints
+
+GRID = "compute_2d_process_grid"
+FROM_MAX = "compute_2d_process_grid_from_max"
+SUBCOMM_CALLS = {"Split", "Split_type", "Create", "Create_group", "Create_cart", "Sub", "Create_graph"}
 
 
-def bounds_vs_layouts(chk):
-    O = I.load_layout_tables(chk)
-    std = [O[(n, 4)] for n in ("flux_surface", "v_parallel", "poloidal")]
-    fn = chk.func(U.PROCGRID, "compute_2d_process_grid")
-    r0 = [n for n in fn.body if isinstance(n, ast.Return)]
-    names = None
-    if len(r0) == 1 and isinstance(r0[0].value, ast.Call) and src(r0[0].value.func) == "compute_2d_process_grid_from_max" \
-            and len(r0[0].value.args) == 3 and all(isinstance(a, ast.Name) for a in r0[0].value.args[:2]):
-        names = [a.id for a in r0[0].value.args[:2]]
-    if names is None:
-        chk.pat("N1-bounds-cover-layouts", fn, "return compute_2d_process_grid_from_max(b1, b2, mpi_size)", False, "", file=U.PROCGRID,
-                func="compute_2d_process_grid")
+# ---------------------------------------------------------------------------------------------------------
+# local normal form of the two small integer functions of process_grid.py (on a copy of the syntax tree)
+# ---------------------------------------------------------------------------------------------------------
+_PURE_CALLS = {"min", "max", "abs", "int", "len"}
+
+
+def _blocks_of(node):
+    """every statement list under node"""
+    for n in ast.walk(node):
+        for f in ("body", "orelse", "finalbody"):
+            b = getattr(n, f, None)
+            if isinstance(b, list) and b and isinstance(b[0], ast.stmt):
+                yield b
+
+
+def _root_name(e):
+    while isinstance(e, (ast.Subscript, ast.Attribute)):
+        e = e.value
+    return e.id if isinstance(e, ast.Name) else None
+
+
+def _pure(e):
+    for n in ast.walk(e):
+        if isinstance(n, ast.Call):
+            if not (isinstance(n.func, ast.Name) and n.func.id in _PURE_CALLS) or n.keywords:
+                return False
+        elif isinstance(n, (ast.Lambda, ast.Await, ast.Yield, ast.YieldFrom, ast.NamedExpr, ast.ListComp, ast.GeneratorExp,
+                            ast.SetComp, ast.DictComp, ast.Starred, ast.Attribute)):
+            return False
+    return True
+
+
+def _written(fn):
+    """names whose value, or the object they name, can change inside fn"""
+    out = set()
+    for n in ast.walk(fn):
+        if isinstance(n, ast.Name) and isinstance(n.ctx, (ast.Store, ast.Del)):
+            out.add(n.id)
+        elif isinstance(n, (ast.Subscript, ast.Attribute)) and isinstance(n.ctx, (ast.Store, ast.Del)):
+            r = _root_name(n)
+            if r:
+                out.add(r)
+        elif isinstance(n, ast.Call) and isinstance(n.func, ast.Attribute) and n.func.attr in lints.MUTATING_METHODS:
+            r = _root_name(n.func.value)
+            if r:
+                out.add(r)
+    return out
+
+
+def _split_tuple_assigns(fn):
+    """`a, b = x, y` with no target read on the right is `a = x; b = y`"""
+    for blk in list(_blocks_of(fn)):
+        k = 0
+        while k < len(blk):
+            st = blk[k]
+            if isinstance(st, ast.Assign) and len(st.targets) == 1 and isinstance(st.targets[0], ast.Tuple) \
+                    and isinstance(st.value, ast.Tuple) and len(st.value.elts) == len(st.targets[0].elts) \
+                    and all(isinstance(t, ast.Name) for t in st.targets[0].elts) \
+                    and not any(isinstance(v, ast.Starred) for v in st.value.elts):
+                tn = [t.id for t in st.targets[0].elts]
+                read = {n.id for v in st.value.elts for n in ast.walk(v) if isinstance(n, ast.Name)}
+                if len(set(tn)) == len(tn) and not (set(tn) & read):
+                    new = [ast.copy_location(ast.Assign(targets=[t], value=v), st) for t, v in zip(st.targets[0].elts, st.value.elts)]
+                    blk[k:k + 1] = new
+                    k += len(new)
+                    continue
+            k += 1
+
+
+class _Subst(ast.NodeTransformer):
+    def __init__(self, name, expr):
+        self.name, self.expr = name, expr
+
+    def visit_Name(self, node):
+        if node.id == self.name and isinstance(node.ctx, ast.Load):
+            new = copy.deepcopy(self.expr)
+            for x in ast.walk(new):
+                ast.copy_location(x, node)
+            return new
+        return node
+
+
+def _inline_invariants(fn):
+    """a local assigned once from an expression over names that never change in fn (`upper1 = min(mpi_size, max_proc1)`,
+    `stop = upper1 + 1`) has that value at every use: the uses are replaced by the expression"""
+    params = {a.arg for a in fn.args.args + fn.args.kwonlyargs + fn.args.posonlyargs}
+    done = []
+    changed = True
+    while changed and len(done) < 50:
+        changed = False
+        written = _written(fn)
+        nstores = {}
+        for n in ast.walk(fn):
+            if isinstance(n, ast.Name) and isinstance(n.ctx, (ast.Store, ast.Del)):
+                nstores[n.id] = nstores.get(n.id, 0) + 1
+        for blk in list(_blocks_of(fn)):
+            for k, st in enumerate(blk):
+                if not (isinstance(st, ast.Assign) and len(st.targets) == 1 and isinstance(st.targets[0], ast.Name)):
+                    continue
+                nm = st.targets[0].id
+                if nm in params or nstores.get(nm) != 1 or not _pure(st.value):
+                    continue
+                read = {n.id for n in ast.walk(st.value) if isinstance(n, ast.Name)}
+                if read & written:
+                    continue
+                del blk[k]
+                if not blk:
+                    blk.append(ast.copy_location(ast.Pass(), st))
+                _Subst(nm, st.value).visit(fn)
+                done.append(nm)
+                changed = True
+                break
+            if changed:
+                break
+    return done
+
+
+def _normal_form(tree, names):
+    """copy of the module with the named functions in local normal form -> (tree copy, {name: FunctionDef})"""
+    t2 = copy.deepcopy(tree)
+    out = {}
+    for st in t2.body:
+        if isinstance(st, ast.FunctionDef) and st.name in names:
+            _split_tuple_assigns(st)
+            _inline_invariants(st)
+            ast.fix_missing_locations(st)
+            out[st.name] = st
+    return t2, out
+
+
+# ---------------------------------------------------------------------------------------------------------
+# integer comparisons in canonical form
+# ---------------------------------------------------------------------------------------------------------
+class _SortMinMax(ast.NodeTransformer):
+    def visit_Call(self, n):
+        self.generic_visit(n)
+        if isinstance(n.func, ast.Name) and n.func.id in ("min", "max") and not n.keywords \
+                and not any(isinstance(a, ast.Starred) for a in n.args):
+            n.args = sorted(n.args, key=ast.unparse)
+        return n
+
+
+def _canon(e):
+    """text of an expression, operands of min/max in a fixed order"""
+    return ast.unparse(_SortMinMax().visit(copy.deepcopy(e)))
+
+
+def _int_const(e):
+    return isinstance(e, ast.Constant) and type(e.value) is int
+
+
+def _lin(e):
+    """e = base + c with an integer constant c -> (canonical text of base, c)"""
+    if isinstance(e, ast.BinOp) and isinstance(e.op, (ast.Add, ast.Sub)):
+        if _int_const(e.right):
+            b, c = _lin(e.left)
+            return b, c + (e.right.value if isinstance(e.op, ast.Add) else -e.right.value)
+        if isinstance(e.op, ast.Add) and _int_const(e.left):
+            b, c = _lin(e.right)
+            return b, c + e.left.value
+    return _canon(e), 0
+
+
+_OPS = {ast.LtE: ("le", 0), ast.Lt: ("le", -1), ast.Gt: ("gt", 0), ast.GtE: ("gt", -1)}
+_FLIP = {ast.LtE: ast.GtE, ast.Lt: ast.Gt, ast.Gt: ast.Lt, ast.GtE: ast.LtE}
+
+
+def _cmp(test, names, taken=True):
+    """the integer comparison `test` (as decided: taken) about one of `names`, as
+    (name, 'le', base, k): name <= base + k   or   (name, 'gt', base, k): name > base + k ; None when it is none"""
+    if isinstance(test, ast.UnaryOp) and isinstance(test.op, ast.Not):
+        return _cmp(test.operand, names, not taken)
+    if not (isinstance(test, ast.Compare) and len(test.ops) == 1):
+        return None
+    l, op, r = test.left, type(test.ops[0]), test.comparators[0]
+    if op not in _OPS:
+        return None
+    if isinstance(l, ast.Name) and l.id in names:
+        nm, other = l.id, r
+    elif isinstance(r, ast.Name) and r.id in names:
+        nm, other, op = r.id, l, _FLIP[op]
+    else:
+        return None
+    kind, adj = _OPS[op]
+    base, c = _lin(other)
+    if not taken:
+        kind = "gt" if kind == "le" else "le"
+    return nm, kind, base, c + adj
+
+
+def _facts(test, taken):
+    """(test, taken) pairs that all hold when `test` evaluates to `taken`"""
+    if isinstance(test, ast.UnaryOp) and isinstance(test.op, ast.Not):
+        return _facts(test.operand, not taken)
+    if isinstance(test, ast.BoolOp) and ((isinstance(test.op, ast.And) and taken) or (isinstance(test.op, ast.Or) and not taken)):
+        return [f for v in test.values for f in _facts(v, taken)]
+    return [(test, taken)]
+
+
+def _bound_text(base, k):
+    return base if k == 0 else f"{base} {'+' if k > 0 else '-'} {abs(k)}"
+
+
+# ---------------------------------------------------------------------------------------------------------
+# the divisor scan  `while v <= B and M % v != 0: v += 1`
+# ---------------------------------------------------------------------------------------------------------
+def _is_nondiv(c, v, M):
+    return same_expr(c, f"{M} % {v} != 0") or same_expr(c, f"0 != {M} % {v}") or same_expr(c, f"{M} % {v}") \
+        or same_expr(c, f"{M} % {v} > 0")
+
+
+def _scan_at(st, M):
+    if not isinstance(st, ast.While) or st.orelse or len(st.body) != 1:
+        return None
+    inc = increment_of(st.body[0])
+    if not inc or not (_int_const(inc[1]) and inc[1].value == 1):
+        return None
+    v = inc[0]
+    conj = st.test.values if isinstance(st.test, ast.BoolOp) and isinstance(st.test.op, ast.And) else [st.test]
+    bound = nondiv = None
+    for c in conj:
+        if _is_nondiv(c, v, M):
+            nondiv = c
+            continue
+        f = _cmp(c, {v})
+        if f and f[1] == "le" and bound is None:
+            bound = f
+        else:
+            return None
+    if bound is None or nondiv is None:
+        return None
+    return {"loop": st, "var": v, "base": bound[2], "k": bound[3], "nondiv": nondiv}
+
+
+def _scans_in(stmts, M):
+    """[(block, index, scan)] for every divisor scan under the statements"""
+    out = []
+    holder = ast.Module(body=list(stmts), type_ignores=[])
+    for blk in _blocks_of(holder):
+        for k, st in enumerate(blk):
+            s = _scan_at(st, M)
+            if s:
+                out.append((blk if blk is not holder.body else stmts, k, s))
+    return out
+
+
+def _scan_start(blk, k, v):
+    """value of the scan variable when the scan at blk[k] starts, as (name, c): name + c with `name` the value a variable
+    has on entry of the block; None when the statements before the scan are not plain assignments"""
+    want, off = v, 0
+    for j in range(k - 1, -1, -1):
+        st = blk[j]
+        inc = increment_of(st)
+        if inc and inc[0] == want:
+            if not _int_const(inc[1]):
+                return None
+            off += inc[1].value
+            continue
+        if isinstance(st, ast.Assign) and len(st.targets) == 1 and isinstance(st.targets[0], ast.Name):
+            if st.targets[0].id != want:
+                continue
+            e = st.value
+            if isinstance(e, ast.Name):
+                want = e.id
+                continue
+            if isinstance(e, ast.BinOp) and isinstance(e.op, ast.Add) and isinstance(e.left, ast.Name) and _int_const(e.right):
+                want, off = e.left.id, off + e.right.value
+                continue
+            if isinstance(e, ast.BinOp) and isinstance(e.op, ast.Add) and isinstance(e.right, ast.Name) and _int_const(e.left):
+                want, off = e.right.id, off + e.left.value
+                continue
+            return None
+        if isinstance(st, ast.AugAssign) and isinstance(st.target, ast.Name) and st.target.id == want:
+            return None
+        if isinstance(st, (ast.While, ast.For, ast.If, ast.With, ast.Try)) and \
+                any(isinstance(n, ast.Name) and isinstance(n.ctx, ast.Store) and n.id == want for n in ast.walk(st)):
+            return None
+    return want, off
+
+
+def _aliases_after(blk, k, v):
+    """names holding the scanned value after the scan at blk[k] (`w = v` statements), and the index of the first
+    statement that is not such an assignment"""
+    al = {v}
+    j = k + 1
+    while j < len(blk):
+        st = blk[j]
+        if isinstance(st, ast.Assign) and len(st.targets) == 1 and isinstance(st.targets[0], ast.Name) \
+                and isinstance(st.value, ast.Name) and st.value.id in al:
+            al.add(st.targets[0].id)
+            j += 1
+            continue
+        break
+    return al, j
+
+
+# ---------------------------------------------------------------------------------------------------------
+# positions and path conditions inside a loop body
+# ---------------------------------------------------------------------------------------------------------
+def _preorder(stmts):
+    out = []
+
+    def rec(b):
+        for st in b:
+            out.append(st)
+            for f in ("body", "orelse", "finalbody"):
+                sub = getattr(st, f, None)
+                if isinstance(sub, list) and sub and isinstance(sub[0], ast.stmt):
+                    rec(sub)
+            for h in getattr(st, "handlers", []) or []:
+                rec(h.body)
+    rec(stmts)
+    return out
+
+
+def _own_stores(st):
+    if isinstance(st, ast.Assign):
+        return {n.id for t in st.targets for n in ast.walk(t) if isinstance(n, ast.Name) and isinstance(n.ctx, ast.Store)}
+    if isinstance(st, (ast.AugAssign, ast.AnnAssign)):
+        return {n.id for n in ast.walk(st.target) if isinstance(n, ast.Name) and isinstance(n.ctx, ast.Store)}
+    if isinstance(st, ast.For):
+        return {n.id for n in ast.walk(st.target) if isinstance(n, ast.Name)}
+    if isinstance(st, ast.With):
+        return {n.id for it in st.items if it.optional_vars is not None for n in ast.walk(it.optional_vars) if isinstance(n, ast.Name)}
+    return set()
+
+
+def _stored_between(order, i, j, names):
+    return any(_own_stores(order[p]) & names for p in range(max(i + 1, 0), j))
+
+
+def _ends_in_jump(b):
+    return bool(b) and isinstance(b[-1], (ast.Break, ast.Continue, ast.Return, ast.Raise))
+
+
+def _chain_to(stmts, target):
+    """[(block, index)] from the statement list down to the block holding `target`"""
+    for k, st in enumerate(stmts):
+        if st is target:
+            return [(stmts, k)]
+        for f in ("body", "orelse", "finalbody"):
+            sub = getattr(st, f, None)
+            if isinstance(sub, list) and sub and isinstance(sub[0], ast.stmt):
+                c = _chain_to(sub, target)
+                if c:
+                    return [(stmts, k)] + c
+    return None
+
+
+def _path_facts(loop, target):
+    """[(position, test, taken)]: decisions every path from the head of an iteration of `loop` to `target` has taken
+    (position -1 = the loop test).  Nested loops contribute nothing."""
+    order = _preorder(loop.body)
+    pos = {id(s): p for p, s in enumerate(order)}
+    chain = _chain_to(loop.body, target)
+    if chain is None:
+        return None, order, pos
+    out = [(-1, loop.test, True)]
+    for lvl, (blk, k) in enumerate(chain):
+        for sib in blk[:k]:
+            if isinstance(sib, ast.If):
+                if _ends_in_jump(sib.body) and not _ends_in_jump(sib.orelse):
+                    out.append((pos[id(sib)], sib.test, False))
+                elif _ends_in_jump(sib.orelse) and not _ends_in_jump(sib.body):
+                    out.append((pos[id(sib)], sib.test, True))
+        if lvl + 1 < len(chain):
+            st = blk[k]
+            nxt = chain[lvl + 1][0]
+            if isinstance(st, ast.If):
+                out.append((pos[id(st)], st.test, nxt is st.body))
+            elif isinstance(st, (ast.While, ast.For)):
+                return None, order, pos        # inside a nested loop: not handled
+    return out, order, pos
+
+
+# ---------------------------------------------------------------------------------------------------------
+# calls: arguments by parameter name
+# ---------------------------------------------------------------------------------------------------------
+def _params(fn):
+    return [a.arg for a in fn.args.posonlyargs + fn.args.args]
+
+
+def _bind(call, params):
+    """{parameter: argument expression}, or None (starred arguments, unknown keyword)"""
+    if any(isinstance(a, ast.Starred) for a in call.args) or any(k.arg is None for k in call.keywords) or len(call.args) > len(params):
+        return None
+    out = dict(zip(params, call.args))
+    for k in call.keywords:
+        if k.arg not in params or k.arg in out:
+            return None
+        out[k.arg] = k.value
+    return out
+
+
+# ---------------------------------------------------------------------------------------------------------
+# N1: the bounds of compute_2d_process_grid cover the standard layouts
+# ---------------------------------------------------------------------------------------------------------
+def _dims_under(e, npts):
+    """(function, set of dimensions d) for  f(npts[d], ...)  with f in min/max (nested allowed) or a single npts[d]"""
+    if isinstance(e, ast.Subscript) and isinstance(e.value, ast.Name) and e.value.id == npts:
+        s = e.slice
+        if isinstance(s, ast.UnaryOp) and isinstance(s.op, ast.USub) and _int_const(s.operand):
+            return "min", {4 - s.operand.value}
+        if _int_const(s):
+            return "min", {s.value}
+        return None
+    if isinstance(e, ast.Call) and isinstance(e.func, ast.Name) and e.func.id in ("min", "max") and not e.keywords and e.args:
+        dims, fun = set(), e.func.id
+        for a in e.args:
+            sub = _dims_under(a, npts)
+            if sub is None or (sub[0] != fun and isinstance(a, ast.Call)):
+                return None
+            dims |= sub[1]
+        return fun, dims
+    return None
+
+
+def bounds_vs_layouts(chk, nf):
+    chk.func(U.PROCGRID, GRID)
+    fn = nf[GRID]
+    kw = dict(file=U.PROCGRID, func=GRID)
+    try:
+        O = I.load_layout_tables(chk)
+        std = [O[(n, 4)] for n in ("flux_surface", "v_parallel", "poloidal")]
+    except (AnalysisError, KeyError) as e:
+        for k in (0, 1):
+            chk.ob("N1-bounds-cover-layouts", fn, f"bound of process direction {k}", None,
+                   f"the standard layout dictionaries could not be read from the set-up code ({e}): nothing to compare the bounds with", **kw)
         return
-    for k, name in ((0, names[0]), (1, names[1])):
+    fparams = _params(nf[FROM_MAX]) if FROM_MAX in nf else []
+    gparams = _params(fn)
+    rets = [n for n in ast.walk(fn) if isinstance(n, ast.Return)]
+    call = rets[0].value if len(rets) == 1 and rets[0] is fn.body[-1] else None
+    b = None
+    if isinstance(call, ast.Call) and isinstance(call.func, ast.Name) and call.func.id == FROM_MAX and len(fparams) == 3 and len(gparams) >= 2:
+        b = _bind(call, fparams)
+        if b is not None and len(b) != 3:
+            b = None
+    if b is None:
+        for k in (0, 1):
+            chk.ob("N1-bounds-cover-layouts", fn, f"bound of process direction {k}", None,
+                   f"`return {FROM_MAX}(bound1, bound2, mpi_size)` not found at the end of {GRID}: the expressions that bound the "
+                   "two process directions cannot be extracted", **kw)
+        chk.ob("N1-bounds-cover-layouts", fn, f"return {FROM_MAX}(bound1, bound2, mpi_size)", None, "call not found", **kw)
+        return
+    npts, count = gparams[0], gparams[1]
+    for k in (0, 1):
+        e = b[fparams[k]]
         dims = {o[k] for o in std}
-        asg = [n for n in fn.body if isinstance(n, ast.Assign) and src(n.targets[0]) == name]
-        got = None
-        if asg and isinstance(asg[0].value, ast.Call) and src(asg[0].value.func) == "min":
-            got = set()
-            for a in asg[0].value.args:
-                if isinstance(a, ast.Subscript) and src(a.value) == "npts" and isinstance(a.slice, ast.Constant):
-                    got.add(a.slice.value)
-                else:
-                    got = None
-                    break
-        ok = got is not None and got == dims
-        chk.ob("N1-bounds-cover-layouts", asg[0] if asg else fn, f"{name} = min(npts[d] for d distributed along process direction {k})", ok,
+        got = _dims_under(e, npts) if npts not in _written(fn) else None
+        construct = f"{fparams[k]} = min(npts[d] for d distributed along process direction {k})"
+        if got is None:
+            chk.ob("N1-bounds-cover-layouts", e, construct, None,
+                   f"the bound `{src(e)[:80]}` is not a minimum over entries `{npts}[d]` with literal d: the dimensions it covers "
+                   "cannot be extracted", **kw)
+            continue
+        fun, have = got
+        if fun == "max" and len(have) > 1:
+            chk.ob("N1-bounds-cover-layouts", e, construct, False,
+                   f"the bound of process direction {k} is the LARGEST extent among dimensions {sorted(have)} (`{src(e)}`): a process "
+                   "count between the smallest and the largest extent leaves processes without points of the smaller dimension", **kw)
+            continue
+        ok = have == dims
+        chk.ob("N1-bounds-cover-layouts", e, construct, ok,
                f"the bound of process direction {k} is the smallest extent among the dimensions {sorted(dims)} that the standard layouts "
-               f"distribute along it" if ok else f"{name} is the minimum over dimensions {sorted(got) if got is not None else '?'} but the "
+               f"distribute along it" if ok else f"{fparams[k]} is the minimum over dimensions {sorted(have)} but the "
                f"standard layouts distribute dimensions {sorted(dims)} along process direction {k}: a process can be left without "
-               "points of an unchecked dimension (or a valid grid refused)", file=U.PROCGRID, func="compute_2d_process_grid")
-    okr = src(r0[0].value.args[2]) == "mpi_size"
-    chk.pat("N1-bounds-cover-layouts", r0[0], "return compute_2d_process_grid_from_max(bound1, bound2, mpi_size)", okr,
-            "the two bounds and the process count are handed to the search in this order", file=U.PROCGRID,
-            func="compute_2d_process_grid")
+               "points of an unchecked dimension (or a valid grid refused)", **kw)
+    e = b[fparams[2]]
+    changed = [n for n in ast.walk(fn) if (isinstance(n, ast.AugAssign) and isinstance(n.target, ast.Name) and n.target.id == count)
+               or (isinstance(n, ast.Assign) and any(isinstance(t, ast.Name) and t.id == count for t in n.targets))]
+    okr = isinstance(e, ast.Name) and e.id == count and not changed
+    bad = None
+    if isinstance(e, ast.Name) and e.id == count and changed:
+        bad = (f"the process count is changed (`{src(changed[0])}`) before the search: the grid multiplies to the changed value, not to "
+               "the number of processes of the communicator the caller lays it on")
+    chk.pat("N1-bounds-cover-layouts", rets[0], f"return {FROM_MAX}(bound1, bound2, mpi_size)", okr,
+            "the two bounds and the unchanged process count are handed to the search, each to its own parameter", bad, **kw)
+
+
+# ---------------------------------------------------------------------------------------------------------
+# N1: call sites in setups.py
+# ---------------------------------------------------------------------------------------------------------
+def _defs(f, name):
+    """(values assigned to the plain name in f (None for a destructuring assignment), augmented assignments)"""
+    vals, augs = [], []
+    for n in ast.walk(f):
+        if isinstance(n, ast.Assign):
+            for t in n.targets:
+                if isinstance(t, ast.Name) and t.id == name:
+                    vals.append(n.value)
+                elif isinstance(t, (ast.Tuple, ast.List)) and any(isinstance(x, ast.Name) and x.id == name for x in ast.walk(t)):
+                    vals.append(None)
+        elif isinstance(n, ast.AugAssign) and isinstance(n.target, ast.Name) and n.target.id == name:
+            augs.append(n)
+        elif isinstance(n, (ast.For, ast.With)):
+            tg = [n.target] if isinstance(n, ast.For) else [it.optional_vars for it in n.items if it.optional_vars is not None]
+            if any(isinstance(x, ast.Name) and x.id == name for t in tg for x in ast.walk(t)):
+                vals.append(None)
+    return vals, augs
+
+
+def _resolve(f, e, depth=0):
+    """an expression, through names assigned exactly once -> (expression or None, [adjusting statements])"""
+    adj = []
+    while isinstance(e, ast.Name) and depth < 6:
+        vals, augs = _defs(f, e.id)
+        adj += augs
+        if len(vals) == 1 and vals[0] is not None:
+            e = vals[0]
+            depth += 1
+            continue
+        if not vals:
+            return e, adj            # a parameter / global
+        return None, adj
+    return e, adj
+
+
+def _comm_of_size(e):
+    """`X.Get_size()` under integer arithmetic -> (text of X, [arithmetic wrapped around it]); (None, _) otherwise"""
+    arith = []
+    while isinstance(e, ast.BinOp):
+        l = any(isinstance(n, ast.Attribute) and n.attr == "Get_size" for n in ast.walk(e.left))
+        r = any(isinstance(n, ast.Attribute) and n.attr == "Get_size" for n in ast.walk(e.right))
+        if l == r:
+            return None, arith
+        arith.append(src(e))
+        e = e.left if l else e.right
+    if isinstance(e, ast.Call) and isinstance(e.func, ast.Attribute) and e.func.attr == "Get_size" and not e.args and not e.keywords:
+        return src(e.func.value), arith
+    return None, arith
+
+
+def _is_subcomm(f, hc, cm):
+    """is the communicator expression `hc` (possibly) a part of `cm` obtained by splitting?"""
+    try:
+        e = ast.parse(hc, mode="eval").body
+    except SyntaxError:
+        return False
+    exprs = [e]
+    if isinstance(e, ast.Name):
+        vals, _ = _defs(f, e.id)
+        exprs = [v for v in vals if v is not None]
+    return any(isinstance(n, ast.Call) and isinstance(n.func, ast.Attribute) and n.func.attr in SUBCOMM_CALLS
+               for x in exprs for n in ast.walk(x))
+
+
+def _same_comm(f, hc, cm):
+    if hc == cm:
+        return True
+    for a, b in ((hc, cm), (cm, hc)):
+        if a.isidentifier():
+            vals, augs = _defs(f, a)
+            if len(vals) == 1 and vals[0] is not None and not augs and src(vals[0]) == b:
+                return True
+    return False
+
+
+def _site(chk, f, c, label, gparams, hparams, via_helper=False):
+    kw = dict(file=U.SETUPS, func=getattr(f, "_qual", f.name))
+    construct = f"{label}: {GRID}(constants.npts, <layout communicator>.Get_size()) -> getLayoutHandler"
+    good = "the grid sizes and the size of the communicator the layouts are built on; the result is the handler's process grid"
+
+    def undecided(why):
+        chk.ob("N1-call-site", c, construct, None, why, **kw)
+
+    if any(isinstance(a, ast.Starred) for a in c.args) or any(k.arg is None for k in c.keywords):
+        return undecided("starred arguments: the process count cannot be extracted")
+    b = _bind(c, gparams) if gparams else None
+    if b is None:
+        # more arguments than the function declares / unknown keywords: bind the first two by position or name
+        b = {}
+        for p, a in zip(("npts", "mpi_size"), c.args):
+            b[p] = a
+        for k in c.keywords:
+            b.setdefault(k.arg, k.value)
+        gparams = list(b)
+    if len(gparams) < 2 or gparams[0] not in b or gparams[1] not in b:
+        return undecided("the grid sizes and the process count are not both passed")
+    extra = [f"{p}={src(b[p])}" for p in b if p not in gparams[:2]]
+    handlers = [h for h in ast.walk(f) if isinstance(h, ast.Call) and isinstance(h.func, ast.Name) and h.func.id == "getLayoutHandler"]
+    hb = [_bind(h, hparams) for h in handlers]
+    if not handlers or any(x is None or "comm" not in x or "nprocs" not in x for x in hb):
+        return undecided(f"no getLayoutHandler(comm, layouts, nprocs, eta_grids) call in {f.name} to compare the communicator with")
+    pairs = {(src(x["comm"]), src(x["nprocs"])) for x in hb}
+    if len(pairs) != 1:
+        return undecided(f"layout handlers are built on several communicator/grid pairs {sorted(pairs)}")
+    hc, hn = next(iter(pairs))
+    size, adj = _resolve(f, b[gparams[1]])
+    cm, arith = _comm_of_size(size) if size is not None else (None, [])
+    adjusted = [src(a) for a in adj] + arith + extra
+    if cm is None:
+        return undecided(f"the process count `{src(b[gparams[1]])}` is not read as `<communicator>.Get_size()`")
+    same = _same_comm(f, hc, cm)
+    if not same and _is_subcomm(f, hc, cm):
+        through = f" (adjusted through {adjusted})" if adjusted else ""
+        chk.ob("N1-call-site", c, construct, False,
+               f"the process count is the size of `{cm}`{through} but the layouts are built on `{hc}`, a part of a split communicator: "
+               "on a rank where the two differ (the plot-only rank) the grid does not multiply to the size of the communicator it is "
+               "laid on, and the cartesian topology cannot be created", **kw)
+        return
+    if not same:
+        return undecided(f"the process count is the size of `{cm}`, the layouts are built on `{hc}`: cannot decide that the two are "
+                         "the same communicator")
+    if adjusted:
+        return undecided(f"the size of `{cm}` is adjusted ({adjusted}) before it is used as process count")
+    grid_sizes, gadj = _resolve(f, b[gparams[0]])
+    is_param = via_helper and isinstance(grid_sizes, ast.Name) and grid_sizes.id in _params(f) and not gadj
+    if not is_param and (grid_sizes is None or gadj or src(grid_sizes) != "constants.npts"):
+        return undecided(f"the grid sizes `{src(b[gparams[0]])}` are not recognised as `constants.npts`")
+    tgt = parent(c)
+    if not (isinstance(tgt, ast.Assign) and len(tgt.targets) == 1 and src(tgt.targets[0]) == hn):
+        return undecided(f"the result of {GRID} is not the value `{hn}` handed to getLayoutHandler as process grid")
+    chk.ob("N1-call-site", c, construct, True, good, **kw)
+
+
+def call_sites(chk):
+    smod = chk.mod(U.SETUPS)
+    pmod = chk.mod(U.PROCGRID)
+    gparams = _params(pmod.func(GRID)) if pmod.has(GRID) else []
+    hparams = ["comm", "layouts", "nprocs", "eta_grids"]
+    try:
+        lmod = chk.mod(U.LAYOUT)
+        if lmod.has("getLayoutHandler"):
+            hparams = _params(lmod.func("getLayoutHandler"))
+    except AnalysisError:
+        pass
+    funcs = [st for st in smod.tree.body if isinstance(st, ast.FunctionDef)]
+
+    def grid_calls(g):
+        return [c for c in ast.walk(g) if isinstance(c, ast.Call) and isinstance(c.func, ast.Name) and c.func.id == GRID]
     for q in ("setupCylindricalGrid", "setupFromFile"):
         f = chk.func(U.SETUPS, q)
-        calls = [c for c in ast.walk(f) if isinstance(c, ast.Call) and src(c.func) == "compute_2d_process_grid"]
-        handlers = [c for c in ast.walk(f) if isinstance(c, ast.Call) and src(c.func) == "getLayoutHandler"]
-        if len(calls) != 1 or not handlers or len({(src(x.args[0]), src(x.args[2])) for x in handlers if len(x.args) >= 3}) != 1:
-            raise AnalysisError(f"C20: {q}: expected one compute_2d_process_grid call and getLayoutHandler calls on one communicator/grid")
-        c, h = calls[0], handlers[0]
-        ok, bad = False, None
-        if len(c.args) + len(c.keywords) == 2 and len(c.args) >= 1 and src(c.args[0]) == "constants.npts" and h.args:
-            size = c.args[1] if len(c.args) == 2 else c.keywords[0].value
-            if isinstance(size, ast.Name):
-                d = [n for n in ast.walk(f) if isinstance(n, ast.Assign) and src(n.targets[0]) == size.id]
-                size = d[0].value if len(d) == 1 else None
-            if isinstance(size, ast.Call) and isinstance(size.func, ast.Attribute) and size.func.attr == "Get_size" and not size.args:
-                cm, hc = src(size.func.value), src(h.args[0])
-                # the result must be what the handler receives as process grid
-                tgt = parent(c)
-                res_ok = isinstance(tgt, ast.Assign) and len(h.args) >= 3 and src(h.args[2]) == src(tgt.targets[0])
-                ok = cm == hc and res_ok
-                if cm != hc:
-                    bad = (f"the process count is the size of `{cm}` but the layouts are built on `{hc}`: on a rank where the two differ "
-                           "(the plot-only rank of a split communicator) the grid does not multiply to the size of the communicator it is laid on")
-        elif len(c.args) + len(c.keywords) > 2:
-            extra = [src(a) for a in c.args[2:]] + [k.arg for k in c.keywords]
-            size = c.args[1] if len(c.args) >= 2 else None
-            if isinstance(size, ast.Name):
-                d = [n for n in ast.walk(f) if isinstance(n, ast.Assign) and src(n.targets[0]) == size.id]
-                size = d[0].value if len(d) == 1 else None
-            if isinstance(size, ast.Call) and isinstance(size.func, ast.Attribute) and size.func.attr == "Get_size" and h.args \
-                    and src(size.func.value) != src(h.args[0]):
-                bad = (f"the process count is the size of `{src(size.func.value)}` (adjusted through {extra}) but the layouts are built on "
-                       f"`{src(h.args[0])}`: on a rank where the two communicators differ (the plot-only rank) the grid does not multiply "
-                       "to the size of the communicator it is laid on")
-        chk.pat("N1-call-site", c, f"{q}: compute_2d_process_grid(constants.npts, <layout communicator>.Get_size()) -> getLayoutHandler", ok,
-                "the grid sizes and the size of the communicator the layouts are built on; the result is the handler's process grid", bad,
-                file=U.SETUPS, func=q)
+        calls = grid_calls(f)
+        if calls:
+            for c in calls:
+                _site(chk, f, c, q, gparams, hparams)
+            continue
+        called = {c.func.id for c in ast.walk(f) if isinstance(c, ast.Call) and isinstance(c.func, ast.Name)}
+        helpers = [g for g in funcs if g is not f and g.name in called and grid_calls(g)]
+        if not helpers:
+            chk.ob("N1-call-site", f, f"{q}: {GRID}(constants.npts, <layout communicator>.Get_size()) -> getLayoutHandler", None,
+                   f"no call of {GRID} in {q} or in a function of setups.py it calls", file=U.SETUPS, func=q)
+            continue
+        for g in helpers:
+            chk.func(U.SETUPS, g.name)
+            for c in grid_calls(g):
+                # inside a helper the grid sizes arrive as a parameter: only the communicator and the use of the result are decided
+                _site(chk, g, c, q, gparams, hparams, via_helper=True)
 
 
-def search_guards(chk):
-    fn = chk.func(U.PROCGRID, "compute_2d_process_grid_from_max")
-    # first loop: `while nprocs2 > max_proc2:` ... inner `while (v <= B and mpi_size % v != 0): v += 1` ; `if v > B: raise`
-    outer = [n for n in fn.body if isinstance(n, ast.While)]
-    if len(outer) != 2:
-        raise AnalysisError("C20: the two search loops of compute_2d_process_grid_from_max not found")
-    w1 = outer[0]
-    inner = [n for n in w1.body if isinstance(n, ast.While)]
-    ok = False
-    why = "divisor search loop not recognised"
-    if len(inner) == 1 and isinstance(inner[0].test, ast.BoolOp) and isinstance(inner[0].test.op, ast.And):
-        conj = inner[0].test.values
-        bound = [c for c in conj if isinstance(c, ast.Compare) and isinstance(c.ops[0], (ast.LtE, ast.Lt)) and isinstance(c.left, ast.Name)]
-        nondiv = [c for c in conj if isinstance(c, ast.Compare) and isinstance(c.ops[0], ast.NotEq) and "%" in src(c)]
-        k = w1.body.index(inner[0])
-        nxt = w1.body[k + 1] if k + 1 < len(w1.body) else None
-        if bound and nondiv and isinstance(nxt, ast.If):
-            b = bound[0]
-            v, B = b.left.id, src(b.comparators[0])
-            want = f"{v} > {B}" if isinstance(b.ops[0], ast.LtE) else f"{v} >= {B}"
-            ok = same_expr(nxt.test, want) and any(isinstance(x, ast.Raise) for x in nxt.body) and \
-                same_expr(nondiv[0], f"mpi_size % {v} != 0")
-            why = (f"the search stops at the first divisor not exceeding {B}; the error is raised exactly when the bound is exceeded "
-                   "(the negation of the loop's bound condition)") if ok else \
-                (f"after `while {src(inner[0].test)}` the failure test is `{src(nxt.test)}`, not the negated bound `{want}`: a value that "
-                 "stepped past the bound onto a divisor is returned as a valid grid (a process gets no point of a distributed dimension)")
-    chk.pat("N2-failure-guard", inner[0] if inner else w1, "raise exactly when no divisor <= bound exists", ok, why,
-            why if (not ok and why.startswith("after `while")) else None, file=U.PROCGRID, func="compute_2d_process_grid_from_max")
-    okw = same_expr(w1.test, "nprocs2 > max_proc2", vars=("nprocs2",)) and contains(w1, "nprocs2 = mpi_size // nprocs1", vars=("nprocs1",)) and \
-        contains(fn, "nprocs1 = 1\nnprocs2 = mpi_size")
-    chk.pat("N2-factorisation", w1, "nprocs2 = mpi_size // nprocs1 for a divisor nprocs1", okw,
-            "the second extent is the exact quotient by a divisor: the grid multiplies to the process count; the search continues "
-            "while the second extent exceeds its bound", file=U.PROCGRID, func="compute_2d_process_grid_from_max")
-    w2 = outer[1]
-    ok2 = contains(w2, "if new_n1 > min(mpi_size, max_proc1):\n    break", vars=("new_n1",)) and \
-        contains(w2, "new_n2 = mpi_size // new_n1", vars=("new_n1",)) and \
-        any(isinstance(n, ast.If) and same_expr(n.test, "new_n2 <= max_proc2", vars=("new_n2",)) for n in w2.body) and \
-        contains(w2, "nprocs1 = new_n1\nnprocs2 = new_n2\nratio = new_ratio", vars=("new_n1", "new_n2", "new_ratio"))
-    chk.pat("N2-improvement-step", w2, "candidate accepted only within both bounds, as a pair", ok2,
-            "a candidate replaces the current grid only if it respects both bounds, and both extents are replaced together",
-            file=U.PROCGRID, func="compute_2d_process_grid_from_max")
-    # N3: no iteration of a search loop can leave the loop-carried state unchanged (it would repeat forever)
-    from .. import lints
-    loops = [n for n in ast.walk(fn) if isinstance(n, ast.While)]
-    for lp in loops:
-        carried, stuck, npaths = lints.stuck_iterations(lp)
-        for dec, end in stuck:
-            # the one state-preserving path of today's refinement loop is infeasible: new_n1 > nprocs1, so
-            # new_n2 = mpi_size // new_n1 <= mpi_size // nprocs1 = nprocs2 <= max_proc2 (first loop's exit condition);
-            # accepted only while the statements carrying that argument are in place (okw, ok2)
-            infeasible = lp is w2 and okw and ok2 and end == "end of body" and len(dec) >= 1 and dec[-1][1] is False and \
-                same_expr(dec[-1][0], "new_n2 <= max_proc2", vars=("new_n2",)) and \
-                contains(w2, "new_n1 = nprocs1 + 1", vars=("new_n1", "nprocs1")) is not None
-            if infeasible:
-                continue
-            shape = lp is w2 and end == "end of body" and dec and dec[-1][1] is False and \
-                same_expr(dec[-1][0], "new_n2 <= max_proc2", vars=("new_n2",))
-            chk.ob("N3-no-stuck-iteration", dec[-1][0] if dec else lp, f"iteration path ending at {end}", None if shape else False,
-                   "the state-preserving path of the refinement loop is infeasible only because new_n2 < nprocs2 <= max_proc2; the statements "
-                   "carrying that argument (first search loop, new_n1 = nprocs1 + 1, new_n2 = mpi_size // new_n1) were not all recognised" if shape else
-                   "the path " + " / ".join(f"`{src(t)}` is {v}" for t, v in dec) + f" reaches the next iteration ({end}) without changing any of the "
-                   f"loop-carried values {sorted(carried)}: the same iteration repeats forever, the search does not terminate",
-                   file=U.PROCGRID, func="compute_2d_process_grid_from_max")
-        chk.ob("N3-no-stuck-iteration", lp, f"while {src(lp.test)[:60]}", not any(True for _ in []), f"{npaths} iteration paths to the back edge examined; "
-               f"loop-carried values {sorted(carried)}", file=U.PROCGRID, func="compute_2d_process_grid_from_max", nontrivial=False)
-    # the answer is a function of the arguments alone: no memoised table is changed by a call
+# ---------------------------------------------------------------------------------------------------------
+# N4: the answer is a function of the arguments alone
+# ---------------------------------------------------------------------------------------------------------
+_TABLE_CALLS = {"dict", "list", "set", "defaultdict", "OrderedDict", "deque", "Counter"}
+
+
+def pure_search(chk, tree, fn):
+    kw = dict(file=U.PROCGRID)
     if not lints.memo_selftest():
         raise AnalysisError("C20: the memoised-result lint no longer recognises its own positive example")
-    tree = chk.mod(U.PROCGRID).tree
     memo, muts = lints.memoised_result_mutations(tree)
     for f_, node, desc in muts:
         chk.ob("N4-pure-search", node, f"memoised table changed in {f_.name}", False,
-               desc + ": the next call with the same process count starts from the shortened table and can refuse a grid that exists "
-               "(or return another one)", file=U.PROCGRID, func=f_.name)
-    chk.ob("N4-pure-search", fn, "no call changes state that a later call reads", not muts,
-           f"memoised helpers: {sorted(memo) or 'none'}; no in-place change of a memoised result; the module keeps no other state",
-           file=U.PROCGRID, func="compute_2d_process_grid_from_max", nontrivial=False)
+               desc + ": the cache hands the same object to every later call, so the next call with the same process count starts "
+               "from the changed table and can refuse a grid that exists (or return another one)", func=f_.name, **kw)
+    # module-level tables (hand-written memoisation): filling is fine, changing a stored object in place is not
+    tables = set()
+    for st in tree.body:
+        tg, val = ([t for t in st.targets], st.value) if isinstance(st, ast.Assign) else \
+            ([st.target], st.value) if isinstance(st, ast.AnnAssign) and st.value is not None else ([], None)
+        if isinstance(val, (ast.Dict, ast.List, ast.Set, ast.ListComp, ast.DictComp, ast.SetComp)) or \
+                (isinstance(val, ast.Call) and src(val.func).split(".")[-1] in _TABLE_CALLS):
+            tables |= {t.id for t in tg if isinstance(t, ast.Name)}
+    nstate = nviol = 0
+    if tables:
+        for f_ in [n for n in ast.walk(tree) if isinstance(n, ast.FunctionDef)]:
+            for node, desc in lints.shared_state_mutations(f_, lambda s_: s_ in tables):
+                recv = node.func.value if isinstance(node, ast.Call) and isinstance(node.func, ast.Attribute) else \
+                    node.target if isinstance(node, ast.AugAssign) else \
+                    next((t.value for t in getattr(node, "targets", []) if isinstance(t, ast.Subscript)), None)
+                if isinstance(recv, ast.Subscript) and isinstance(node, ast.AugAssign):
+                    recv = recv.value
+                direct = isinstance(recv, ast.Name) and recv.id in tables
+                fill = direct and (isinstance(node, ast.Assign) or (isinstance(node, ast.Call) and node.func.attr in ("setdefault", "update")))
+                if fill:
+                    continue
+                nstate += 1
+                nviol += not direct
+                chk.ob("N4-pure-search", node, f"module-level table changed in {f_.name}", None if direct else False,
+                       desc.replace("the stored", "the module-level table") + (
+                           ": a call changes module-level state; cannot decide that a later call does not read it" if direct else
+                           ": the object is kept in a module-level table, so a later call reads the changed object and its answer "
+                           "depends on the calls made before"), func=f_.name, **kw)
+    chk.ob("N4-pure-search", fn, "no call changes state that a later call reads", True if not muts and not nstate else False if muts or nviol else None,
+           f"memoised helpers: {sorted(memo) or 'none'}; module-level tables: {sorted(tables) or 'none'}; no in-place change of a "
+           "memoised or stored result" if not muts and not nstate else "see the in-place changes reported above",
+           func=FROM_MAX, nontrivial=False, **kw)
     glob = [n for n in ast.walk(tree) if isinstance(n, (ast.Global, ast.Nonlocal))]
     chk.ob("N4-pure-search", glob[0] if glob else fn, "no global/nonlocal state in process_grid.py", not glob,
            "the search functions declare no global or nonlocal variable" if not glob else
-           f"`{src(glob[0])}`: the result of a call can depend on earlier calls", file=U.PROCGRID, func="compute_2d_process_grid_from_max",
-           nontrivial=False)
-    r = [n for n in fn.body if isinstance(n, ast.Return)]
-    okr = len(r) == 1 and same_expr(r[0].value, "(nprocs1, nprocs2)", vars=("nprocs1", "nprocs2"))
-    chk.pat("N2-factorisation", r[0] if r else fn, "return nprocs1, nprocs2", okr, "the pair is returned in (direction 0, direction 1) order",
-            file=U.PROCGRID, func="compute_2d_process_grid_from_max", nontrivial=False)
+           f"`{src(glob[0])}`: the result of a call can depend on earlier calls", func=FROM_MAX, nontrivial=False, **kw)
+
+
+# ---------------------------------------------------------------------------------------------------------
+# N2 / N3: the search in compute_2d_process_grid_from_max
+# ---------------------------------------------------------------------------------------------------------
+def _first_loop(fn, P1, P2, M, r1, r2):
+    """the feasibility loop and its parts -> dict (status per clause) ; names are the returned pair (r1, r2)"""
+    out = {"w1": None, "guard": (None, "the loop that looks for the first admissible divisor (the top-level `while` holding the "
+                                 "`raise`) was not found"), "fact": (None, "first search loop not found"), "scan": None}
+    tops = [n for n in fn.body if isinstance(n, ast.While)]
+    cands = [w for w in tops if any(isinstance(n, ast.Raise) for n in ast.walk(w))]
+    if len(cands) != 1:
+        cands = [w for w in tops if _cmp(w.test, {r2}) is not None and _cmp(w.test, {r2})[1] == "gt"]
+        if len(cands) != 1:
+            return out
+    w1 = out["w1"] = cands[0]
+    scans = _scans_in(w1.body, M)
+    if len(scans) != 1:
+        why = f"{len(scans)} divisor scans `while v <= B and {M} % v != 0: v += 1` in the first search loop (one expected)"
+        out["guard"] = out["fact"] = (None, why)
+        return out
+    blk, k, sc = scans[0]
+    out["scan"] = sc
+    v = sc["var"]
+    al, j = _aliases_after(blk, k, v)
+    B = _bound_text(sc["base"], sc["k"])
+    # ---- failure guard: judged against the bound of the specification, min(process count, bound of direction 0).  The scan may
+    # run further than that bound (the test still sorts every value correctly) but not stop short of it.
+    true_base = _canon(ast.parse(f"min({M}, {P1})", mode="eval").body)
+    T = f"min({M}, {P1})"
+    nxt = blk[j] if j < len(blk) else None
+    if isinstance(nxt, ast.If) and not nxt.orelse and any(isinstance(x, ast.Raise) for x in nxt.body):
+        f = _cmp(nxt.test, al)
+        if any(_is_nondiv(nxt.test, a, M) for a in al):
+            out["guard"] = (False, f"after `while {src(sc['loop'].test)}` the failure test is `{src(nxt.test)}`, not the exceeded bound "
+                                   f"`{v} > {T}`: a value that stepped past the bound onto a divisor is returned as a valid grid (a process "
+                                   "gets no point of a distributed dimension)")
+        elif f and f[1] == "le":
+            out["guard"] = (False, f"the error is raised when `{src(nxt.test)}`, i.e. when the scan FOUND a value within the bound, and "
+                                   "not when it ran past it")
+        elif f and f[1] == "gt" and f[2] == true_base and f[3] != 0:
+            out["guard"] = (False, f"the error is raised when `{f[0]} > {_bound_text(T, f[3])}` instead of `{f[0]} > {T}`: " +
+                                   (f"values up to {_bound_text(T, f[3])} pass although they exceed the bound (a process gets no point of a "
+                                    "distributed dimension)" if f[3] > 0 else
+                                    "an admissible divisor equal to the bound is refused although a valid grid exists"))
+        elif f and f[1] == "gt" and f[2] == true_base and sc["base"] == true_base and sc["k"] < 0:
+            out["guard"] = (False, f"the scan stops at `{v} = {_bound_text(T, sc['k'] + 1)}` whether or not that value divides `{M}`, and the "
+                                   f"failure test `{src(nxt.test)}` lets it pass: a non-divisor within the bound is taken as first extent, the "
+                                   "grid does not multiply to the process count")
+        elif f and f[1] == "gt" and f[2] == true_base and sc["base"] == true_base:
+            out["guard"] = (True, f"the scan stops at the first divisor or beyond {B}; the error is raised exactly when the value found exceeds "
+                                  f"{T}, so a value that passes is a divisor within the bound")
+        else:
+            out["guard"] = (None, f"the failure test `{src(nxt.test)[:80]}` / the scan bound `{B}` are not comparisons of the scanned value "
+                                  f"with `{T}`: cannot decide that the error is raised exactly when that bound is exceeded")
+    else:
+        out["guard"] = (None, "the statement after the divisor scan is not `if <scanned value> > <bound>: raise`")
+    # ---- factorisation
+    start = _scan_start(blk, k, v)
+    asg = [n for n in blk[j:] if isinstance(n, ast.Assign) and len(n.targets) == 1 and isinstance(n.targets[0], ast.Name)
+           and n.targets[0].id == r2]
+    test = _cmp(w1.test, {r2})
+    init = {}
+    for st in fn.body[:fn.body.index(w1)]:
+        if isinstance(st, ast.Assign) and len(st.targets) == 1 and isinstance(st.targets[0], ast.Name) and st.targets[0].id in (r1, r2):
+            init[st.targets[0].id] = st.value
+            continue
+        for n in ast.walk(st):
+            if isinstance(n, ast.Name) and isinstance(n.ctx, ast.Store) and n.id in (r1, r2):
+                init[n.id] = None
+    why = None
+    verdict = None
+    if len(asg) != 1 or blk is not w1.body:
+        why = f"no single assignment `{r2} = {M} // <divisor>` after the scan in the first search loop"
+    else:
+        e = asg[0].value
+        if isinstance(e, ast.BinOp) and isinstance(e.left, ast.Name) and e.left.id == M and isinstance(e.right, ast.Name) and e.right.id in al:
+            if isinstance(e.op, ast.Div):
+                verdict, why = False, (f"`{src(asg[0])}` is a true division: the second extent becomes a float, which is no valid number of "
+                                       "processes for the cartesian topology")
+            elif not isinstance(e.op, ast.FloorDiv):
+                why = f"`{src(asg[0])}` is not the quotient `{M} // {e.right.id}`"
+        else:
+            why = f"`{src(asg[0])}` is not the quotient of {M} by the scanned divisor ({sorted(al)})"
+        if why is None and r1 not in al:
+            why = f"the scanned divisor ({sorted(al)}) is not stored in the returned first extent `{r1}`"
+        if why is None and start != (r1, 1):
+            why = (f"the scan does not start at `{r1} + 1`" + (f" but at `{start[0]} + {start[1]}`" if start else "") +
+                   ": cannot decide that every divisor is visited once, in increasing order")
+    if why is None:
+        if not (test and test[1] == "gt" and test[2] == P2):
+            why = f"the loop test `{src(w1.test)}` is not a comparison of `{r2}` with its bound `{P2}`"
+        elif test[3] != 0:
+            verdict = False
+            why = (f"the first search loop runs while `{src(w1.test)}` instead of `{r2} > {P2}`: " +
+                   ("a second extent equal to its bound is admissible but is skipped (a valid grid can be refused)" if test[3] < 0 else
+                    f"it stops while the second extent still exceeds the bound `{P2}` (a process gets no point)"))
+    if why is None:
+        i1, i2 = init.get(r1), init.get(r2)
+        if not (i1 is not None and _int_const(i1) and i1.value == 1 and isinstance(i2, ast.Name) and i2.id == M):
+            why = f"the search does not start from `{r1} = 1`, `{r2} = {M}`"
+    if why is None:
+        out["fact"] = (True, "the second extent is the exact quotient by a divisor found by the scan: the grid multiplies to the process "
+                             "count; the search continues while the second extent exceeds its bound")
+    else:
+        out["fact"] = (verdict, why)
+    return out
+
+
+def _second_loop(fn, w1, P1, P2, M, r1, r2):
+    """the refinement loop -> dict: w2, step=(verdict, why), cand=(a, b) names of the accepted candidate, mono: bool"""
+    out = {"w2": None, "step": (None, "the refinement loop (the top-level `while` after the first search that stores the returned "
+                                "extents) was not found"), "cand": None, "mono": False}
+    tops = [n for n in fn.body if isinstance(n, ast.While) and n is not w1
+            and any(isinstance(x, ast.Name) and isinstance(x.ctx, ast.Store) and x.id in (r1, r2) for x in ast.walk(n))]
+    if w1 is not None:
+        tops = [n for n in tops if fn.body.index(n) > fn.body.index(w1)]
+    if len(tops) != 1:
+        return out
+    w2 = out["w2"] = tops[0]
+    # acceptance blocks: where the returned extents are replaced
+    acc = []
+    for blk in [w2.body] + [b for b in _blocks_of(w2) if b is not w2.body]:
+        st1 = [s for s in blk if isinstance(s, ast.Assign) and len(s.targets) == 1 and isinstance(s.targets[0], ast.Name) and s.targets[0].id == r1]
+        st2 = [s for s in blk if isinstance(s, ast.Assign) and len(s.targets) == 1 and isinstance(s.targets[0], ast.Name) and s.targets[0].id == r2]
+        if st1 or st2:
+            acc.append((blk, st1, st2))
+    other = [n for n in ast.walk(w2) if isinstance(n, (ast.AugAssign, ast.For)) and _own_stores(n) & {r1, r2}]
+    if other or not acc:
+        out["step"] = (None, f"the returned extents are changed by `{src(other[0])[:60]}`" if other else "no assignment of the returned extents")
+        return out
+    for blk, st1, st2 in acc:
+        if len(st1) != len(st2):
+            lone = (st1 or st2)[0]
+            out["step"] = (False, f"`{src(lone)}` replaces one extent of the grid without the other in the same branch: the pair no longer "
+                                  f"multiplies to the process count `{M}`")
+            return out
+    if len(acc) != 1 or len(acc[0][1]) != 1:
+        out["step"] = (None, "the returned extents are replaced at several places of the refinement loop")
+        return out
+    blk, (s1,), (s2,) = acc[0]
+    if not isinstance(s1.value, ast.Name):
+        out["step"] = (None, f"`{src(s1)}`: the accepted first extent is not a plain candidate variable")
+        return out
+    a = s1.value.id
+    first = s1 if blk.index(s1) < blk.index(s2) else s2
+    facts, order, pos = _path_facts(w2, first)
+    if facts is None:
+        out["step"] = (None, "the acceptance lies inside a nested loop")
+        return out
+    here = pos[id(first)]
+    # the second extent of the candidate
+    b = None
+    e = s2.value
+    if isinstance(e, ast.Name):
+        b = e.id
+        chain_blocks = [c[0] for c in _chain_to(w2.body, first)]
+        defs = [s for s in order[:here] if isinstance(s, ast.Assign) and len(s.targets) == 1 and isinstance(s.targets[0], ast.Name)
+                and s.targets[0].id == b]
+        d = defs[-1] if defs else None
+        if d is None or not any(d in cb for cb in chain_blocks) or _stored_between(order, pos[id(d)], here, {a, b}):
+            out["step"] = (None, f"the definition of the candidate's second extent `{b}` that reaches the acceptance was not found")
+            return out
+        e = d.value
+    if not (isinstance(e, ast.BinOp) and isinstance(e.left, ast.Name) and e.left.id == M and isinstance(e.right, ast.Name) and e.right.id == a):
+        out["step"] = (None, f"the accepted second extent `{src(e)}` is not the quotient `{M} // {a}`")
+        return out
+    if isinstance(e.op, ast.Div):
+        out["step"] = (False, f"the candidate's second extent `{src(e)}` is a true division: a float is returned as number of processes")
+        return out
+    if not isinstance(e.op, ast.FloorDiv):
+        out["step"] = (None, f"the accepted second extent `{src(e)}` is not the quotient `{M} // {a}`")
+        return out
+    out["cand"] = (a, b)
+    # bounds known at the acceptance
+    want1 = _canon(ast.parse(f"min({M}, {P1})", mode="eval").body)
+    got1 = got2 = None
+    for p, t, taken in facts:
+        for t2, tk in _facts(t, taken):
+            f = _cmp(t2, {a} | ({b} if b else set()), tk)
+            if not f or f[1] != "le" or _stored_between(order, p, here, {f[0]}):
+                continue
+            if f[0] == a and f[2] == want1:
+                got1 = f if got1 is None or f[3] < got1[3] else got1
+            if b and f[0] == b and f[2] == P2:
+                got2 = f if got2 is None or f[3] < got2[3] else got2
+    for g, nm, bound in ((got1, a, f"min({M}, {P1})"), (got2, b, P2)):
+        if g is not None and g[3] > 0:
+            out["step"] = (False, f"a candidate is accepted when `{nm} <= {_bound_text(g[2], g[3])}`, beyond its bound `{bound}`: "
+                                  "a process gets no point of a distributed dimension")
+            return out
+    if got1 is None or got2 is None:
+        miss = f"`{a} <= min({M}, {P1})`" if got1 is None else f"`{b or src(e)} <= {P2}`"
+        out["step"] = (None, f"no condition {miss} is known to hold where the candidate is accepted")
+        return out
+    out["step"] = (True, "a candidate replaces the current grid only where it is known to respect both bounds, and both extents are "
+                         "replaced together by a divisor and its exact quotient")
+    # monotonicity argument for N3: the candidate's first extent comes from a scan that starts above the current first extent
+    for sblk, k, sc in _scans_in(w2.body, M):
+        if sblk is not w2.body:
+            continue
+        al, _ = _aliases_after(sblk, k, sc["var"])
+        if a in al and _scan_start(sblk, k, sc["var"]) == (r1, 1):
+            out["mono"] = True
+    return out
+
+
+def search_rules(chk, fn, nf_tree):
+    kw = dict(file=U.PROCGRID, func=FROM_MAX)
+    P = _params(fn)
+    rets = [n for n in ast.walk(fn) if isinstance(n, ast.Return)]
+    pair = None
+    if len(P) == 3 and len(rets) == 1 and rets[0] is fn.body[-1] and isinstance(rets[0].value, ast.Tuple) and len(rets[0].value.elts) == 2 \
+            and all(isinstance(x, ast.Name) for x in rets[0].value.elts) and rets[0].value.elts[0].id != rets[0].value.elts[1].id:
+        pair = tuple(x.id for x in rets[0].value.elts)
+    first = second = None
+    order_bad = None
+    if pair:
+        P1, P2, M = P
+        r1, r2 = pair
+        first = _first_loop(fn, P1, P2, M, r1, r2)
+        if first["fact"][0] is None and first["scan"] is not None:
+            # are the roles of the returned names the other way round?
+            swapped = _first_loop(fn, P1, P2, M, r2, r1)
+            if swapped["fact"][0] is True:
+                order_bad = (f"`{src(rets[0])}`: `{r1}` is the quotient `{M} // {r2}` bounded by `{P2}` (process direction 1) and `{r2}` the "
+                             f"divisor bounded by `{P1}` (direction 0): the pair is returned in the wrong order, each extent is laid on the "
+                             "direction whose bound it was not checked against")
+                first, (r1, r2) = swapped, (r2, r1)
+        second = _second_loop(fn, first["w1"], P1, P2, M, r1, r2)
+    chk.pat("N2-factorisation", rets[0] if rets else fn, "return nprocs1, nprocs2", bool(pair) and not order_bad,
+            "the pair is returned in (direction 0, direction 1) order", order_bad, nontrivial=False, **kw)
+    und = "the function does not end in `return <first extent>, <second extent>` of two local names (or has not three parameters)"
+    g_ok, g_why = first["guard"] if first else (None, und)
+    f_ok, f_why = first["fact"] if first else (None, und)
+    s_ok, s_why = second["step"] if second else (None, und)
+    w1 = first["w1"] if first else None
+    w2 = second["w2"] if second else None
+    import builtins
+    own = {st.name for st in nf_tree.body if isinstance(st, ast.FunctionDef)} | set(dir(builtins))
+    closed = not any(isinstance(n, (ast.Raise, ast.Assert)) or
+                     (isinstance(n, ast.Call) and not (isinstance(n.func, ast.Name) and n.func.id in own)) for n in ast.walk(nf_tree))
+    if g_ok is None and closed and first and first["scan"] is not None:
+        g_ok, g_why = False, ("process_grid.py raises no error at all (no raise, assert, or call of foreign code): when no divisor within the bound exists the scan result is returned "
+                              "as if it were a valid grid")
+    node = (first["scan"]["loop"] if first and first["scan"] else None) or w1 or fn
+    chk.ob("N2-failure-guard", node, "raise exactly when no divisor <= bound exists", g_ok, g_why, **kw)
+    chk.ob("N2-factorisation", w1 or fn, "nprocs2 = mpi_size // nprocs1 for a divisor nprocs1", f_ok, f_why, **kw)
+    chk.ob("N2-improvement-step", w2 or fn, "candidate accepted only within both bounds, as a pair", s_ok, s_why, **kw)
+
+    # N3: no iteration of a search loop can leave the loop-carried state unchanged (it would repeat forever)
+    mono = bool(second and second["mono"] and f_ok is True and s_ok is True and second["cand"] and second["cand"][1])
+    for lp in [n for n in ast.walk(fn) if isinstance(n, ast.While)]:
+        carried, stuck, npaths = lints.stuck_iterations(lp)
+        stored = {n.id for n in ast.walk(lp) if isinstance(n, ast.Name) and isinstance(n.ctx, ast.Store)}
+        for dec, end in stuck:
+            # a path that takes a constant test against its value does not exist
+            if any(isinstance(t, ast.Constant) and bool(t.value) != taken for t, taken in dec):
+                continue
+            # a state-preserving path that decides `new_n2 > max_proc2` is infeasible: new_n1 > nprocs1, so
+            # new_n2 = mpi_size // new_n1 <= mpi_size // nprocs1 = nprocs2 <= max_proc2 (exit condition of the first loop, kept by every
+            # acceptance); accepted only while the statements carrying that argument are in place.  Whether the argument is
+            # recognised or not, a path of that shape is never reported as a violation: its feasibility is what is undecided.
+            shape = discharged = False
+            for t, taken in dec:
+                for t2, tk in _facts(t, taken):
+                    f = _cmp(t2, stored, tk)
+                    if f and f[1] == "gt" and f[3] >= 0 and (len(P) != 3 or f[2] == P[1]):
+                        shape = True
+                        if mono and lp is w2 and f[0] == second["cand"][1]:
+                            discharged = True
+            if discharged:
+                continue
+            chk.ob("N3-no-stuck-iteration", dec[-1][0] if dec else lp, f"iteration path ending at {end}", None if shape else False,
+                   "the state-preserving path of the refinement loop is infeasible only because new_n2 <= nprocs2 <= max_proc2; the statements "
+                   "carrying that argument (first search loop, candidate scan starting at nprocs1 + 1, new_n2 = mpi_size // new_n1, acceptance "
+                   "within both bounds) were not all recognised" if shape else
+                   "the path " + " / ".join(f"`{src(t)}` is {v}" for t, v in dec) + f" reaches the next iteration ({end}) without changing any of the "
+                   f"loop-carried values {sorted(carried)}: the same iteration repeats forever, the search does not terminate", **kw)
+        chk.ob("N3-no-stuck-iteration", lp, f"while {src(lp.test)[:60]}", True, f"{npaths} iteration paths to the back edge examined; "
+               f"loop-carried values {sorted(carried)}", nontrivial=False, **kw)
 
 
 def run(chk):
@@ -174,12 +1011,22 @@ def run(chk):
         "Narrow structural claim: for each process-grid direction the dimensions under the min() that bounds it are exactly the "
         "dimensions the standard layout dictionaries of setups.py distribute along that direction; both set-up functions pass "
         "constants.npts and the layout communicator's size and use the result as the handler's grid; the failure test after the "
-        "divisor search is the negation of the loop's bound condition; the second extent is the exact quotient by a divisor; an "
-        "improved candidate is accepted only within both bounds; no iteration path of a search loop reaches the back edge with the "
-        "loop-carried state unchanged (a necessary condition of termination). Termination in general, optimality and 'raises exactly when none exists' "
-        "over the whole input space quantify over divisor arithmetic and are not decided.")
+        "divisor scan is the negation of the scan's bound condition; the second extent is the exact quotient by a divisor; an "
+        "improved candidate is accepted only where both bounds are known to hold, both extents together; no iteration path of a "
+        "search loop reaches the back edge with the loop-carried state unchanged (a necessary condition of termination); no call "
+        "changes a memoised or module-level table in place. The rules work on a local normal form (tuple assignments split, loop "
+        "invariants written back, comparisons as `v <= B + k`). Termination in general, optimality and 'raises exactly when none "
+        "exists' over the whole input space quantify over divisor arithmetic and are not decided.")
     chk.in_file(U.PROCGRID)
-    bounds_vs_layouts(chk)
-    search_guards(chk)
-    chk.floor("N1-", 5)
+    mod = chk.mod(U.PROCGRID)
+    chk.func(U.PROCGRID, FROM_MAX)
+    nf_tree, nf = _normal_form(mod.tree, (GRID, FROM_MAX))
+    # the purity rule needs no recognition of the search: it runs first, so its verdict stands whatever the other rules can decide
+    pure_search(chk, mod.tree, mod.func(FROM_MAX))
+    bounds_vs_layouts(chk, nf)
+    call_sites(chk)
+    search_rules(chk, nf[FROM_MAX], nf_tree)
+    chk.floor("N1-", 4)
     chk.floor("N2-", 4)
+    chk.floor("N3-", 1)
+    chk.floor("N4-", 2)
